@@ -467,3 +467,40 @@ Theorem C20_scan_skipping_window_byte_0_refuted :
       length got = length ls /\ got <> rev ls.
 Proof. exact scan_skipping_window_byte_0_refuted. Qed.
 Print Assumptions C20_scan_skipping_window_byte_0_refuted.
+
+(** * Round 7: the T field at any offset of the line
+
+    Lines covered by the stamp-field claim: a one-line JSON object whose
+    members before T are string members under other keys, with ANY values of
+    ANY length (written with JSON's escaping of quotes), and whose T holds a
+    time text.  The marker search of readQLogTimestamp has no length bound:
+    wherever T stands, it is read. *)
+Theorem C20_stamp_field_at_any_offset : forall (o : bytes -> Z) (kvs : list (bytes * bytes)) t post,
+  Forall (fun kv => forallb no34 (fst kv) = true /\ fst kv <> kT) kvs ->
+  time_text t = true -> t <> [] ->
+  read_qlog_ts o (line_T_behind kvs t post) = o t.
+Proof. exact stamp_field_at_any_offset. Qed.
+Print Assumptions C20_stamp_field_at_any_offset.
+
+(** ... behind a value of n bytes, for every n (the marker then stands at
+    byte n + 9 of the line). *)
+Theorem C20_stamp_field_behind_n_bytes : forall (o : bytes -> Z) n t,
+  time_text t = true -> t <> [] -> read_qlog_ts o (pad_line n t) = o t.
+Proof. exact stamp_field_behind_n_bytes. Qed.
+Print Assumptions C20_stamp_field_behind_n_bytes.
+
+(** A reader that looks for the marker in the first 512 bytes only (wave-7
+    change M) is refuted with T at byte 599 of a line of 628 bytes: stamp 0,
+    and seekTS ends with "record has empty timestamp", which is none of found
+    / not found / too early / too late. *)
+Theorem C20_stamp_field_bounded_prefix_refuted :
+  let line := pad_line 590 ex_t in
+  blen line = 628 /\ nlfree line /\
+  takeZ (dropZ line 599) 5 = pT /\
+  read_qlog_ts ex_o line = 1709294400500000000 /\
+  read_qlog_ts_prefix 512 ex_o line = 0 /\
+  read_qlog_ts_prefix 512 ex_o (pad_line 100 ex_t) = 1709294400500000000 /\
+  b_seek_ts ex_o 16384 (flat [line]) 1709294400500000000 = Found 628 0 /\
+  b_seek_ts (fun v => 0) 16384 (flat [line]) 1709294400500000000 = EmptyStamp.
+Proof. exact bounded_prefix_refuted. Qed.
+Print Assumptions C20_stamp_field_bounded_prefix_refuted.
